@@ -176,6 +176,8 @@ def run(ctx: Ctx) -> None:
     ctx.saw("functions", ccl.qualname)
     from . import c06_cfg
     cfg_decided = c06_cfg.run(ctx)
+    from . import c06_compr
+    c06_compr.run(ctx)  # comprehension bodies: an outer non-copyable value may be borrowed, never consumed
     from . import c06_nested
     c06_nested.run(ctx)  # `def q(): ...` binds a name like an assignment (undecided, never a violation, when not interpretable)
     if not cfg_decided:
